@@ -191,7 +191,8 @@ fn event_drop_releases_every_event_type() {
 }
 
 static mut PARSER_DELETES: u8 = 0;
-pub(crate) unsafe fn parser_delete_probe(_parser: *mut yaml_parser_t) { unsafe { PARSER_DELETES += 1; } }
+static mut READ_STATE_FREED_BEFORE_PARSER_DELETE: bool = false;
+pub(crate) unsafe fn parser_delete_probe(_parser: *mut yaml_parser_t) { unsafe { PARSER_DELETES += 1; if READER_DROPS > 0 { READ_STATE_FREED_BEFORE_PARSER_DELETE = true; } } }
 static mut READER_DROPS: u8 = 0;
 struct DropProbeReader;
 impl Read for DropProbeReader { fn read(&mut self, _buf: &mut [u8]) -> io::Result<usize> { Ok(0) } }
@@ -208,4 +209,8 @@ fn parser_drop_releases_parser_and_read_state() {
 	drop(p);
 	assert!(unsafe { PARSER_DELETES } == 1, "yaml_parser_delete must run exactly once");
 	assert!(unsafe { READER_DROPS } == 1, "the read state (and the reader in it) must be released exactly once with the parser");
+	// order: libyaml's parser holds a raw pointer to the read state (its read handler's data argument), so the parser has to
+	// go first; freeing the read state first leaves that pointer dangling while yaml_parser_delete runs (and leaks the
+	// parser if the reader's destructor unwinds)
+	assert!(unsafe { !READ_STATE_FREED_BEFORE_PARSER_DELETE }, "the read state was freed while the libyaml parser that points to it was still alive");
 }
